@@ -62,6 +62,14 @@ def scenarios(rng: random.Random, n: int, thorough: bool):
         if i % 7 == 3:
             sc["time_step"] = 0.05
         scs.append(sc)
+    # placed: a projectile that falls through Mach 1 TWICE - a very high ballistic coefficient fired steeply upward slows through
+    # Mach 1 on the way up, falls faster than the local speed of sound through the thin air, and is braked below it again lower down
+    p = shots.gen_shot(rng, winds=0, look=0.0)
+    p.update({"table": "G1", "bc": 3.0, "mv_fps": 3000.0, "rel_rad": math.radians(80.0), "alt_ft": 0.0, "sight_in": 2.0, "winds": [], "look_deg": 0.0,
+              "temp_f": 59.0, "press_inhg": 29.92, "humidity": 0.0})
+    p.pop("powder", None)
+    scs.append({"extra": True, "unit": "Foot", "shot": p, "cfg": {"max_calc_step_size_feet": 8.0}, "tid": n + 1, "mode": "falls_through_mach_twice",
+                "range_ft": 22000.0, "step_ft": 2000.0, "fresh_calc": True, "no_prehistory": True, "watchdog_s": 300})
     return scs
 
 
@@ -82,6 +90,8 @@ def run(chk: core.Check, replay=None) -> None:
         for f in fl:
             chk.stratum("real_flag_" + f)
         chk.stratum("mode_" + o["sc"]["mode"])
+        if o["sc"]["mode"] == "falls_through_mach_twice" and sum(1 for r in o["rows"] if int(r.flag) & 4) >= 2:
+            chk.stratum("two_passages_below_mach_one")
         if abs(o["sc"]["shot"]["look_deg"]) > 1:
             chk.stratum("inclined_sight_line")
         # HitResult.zeros() must be exactly the rows flagged as zero crossings
@@ -124,7 +134,7 @@ def run(chk: core.Check, replay=None) -> None:
     chk.sample({"scenario": o["sc"], "flag_lines": [l for l in o["lines"] if l["ev"] == "Iter" and set(l["fl"]) & {"U", "D", "M"}][:3]})
     chk.sample({"tlc_behaviour": {k: v for k, v in behs[1].items() if k != "consts"}})
     chk.require_strata(["obj_flag_U", "obj_flag_D", "obj_flag_M", "real_flag_U", "real_flag_D", "real_flag_M", "inclined_sight_line",
-                        "zeros_accessor", "request_ends_at_an_event_with_closing_row", "mode_barrel_below", "mode_muzzle_above", "mode_on_line", "mode_muzzle_above_barrel_below", "mode_barely_supersonic_launch"])
+                        "zeros_accessor", "request_ends_at_an_event_with_closing_row", "mode_barrel_below", "mode_muzzle_above", "mode_on_line", "mode_muzzle_above_barrel_below", "mode_barely_supersonic_launch", "two_passages_below_mach_one"])
     chk.exhaustive = False
     chk.rule.append("design: Integrator.tla C15_* over every side/sup sequence of the bounded model for each muzzle/barrel configuration; "
                     "spec->code: TLC behaviours replayed into the real _TrajectoryDataFilter (flags and seen_zero after every call); "
